@@ -224,6 +224,12 @@ struct Compiled {
 
 /// Builds and compiles one specification through the real library; emits the all-words
 /// equivalence request and the sampled-word requests.
+fn case_if(ctx: &mut Ctx, emit: bool, kind: &str, nontrivial: bool, op: &str, ans: &str) {
+    if emit {
+        ctx.case(kind, nontrivial, op, ans);
+    }
+}
+
 fn one_spec(ctx: &mut Ctx, s: &Spec, rng: &mut ChaCha8Rng, nwords: usize) -> Option<Compiled> {
     let mut tags = vec![];
     spec_tags(s, &mut tags);
@@ -268,6 +274,12 @@ fn one_spec(ctx: &mut Ctx, s: &Spec, rng: &mut ChaCha8Rng, nwords: usize) -> Opt
             reference::has_dead_concat(&tree, &reps, &ms),
         )
     };
+    // Expressions of the two recorded defect classes (see /verif/findings/C19.json) are only
+    // checked by the oracle (which reports them under their stable keys), not sent to the model.
+    let emit = !(has_marked_complement(&tree) || dead_concat);
+    if !emit {
+        ctx.count("regex:known-defect-class(oracle-only)");
+    }
     let compiled = catch(|| regex.to_automaton());
     if det.is_some() {
         let refused = matches!(&compiled, Err(m) if m.contains("non output-deterministic"));
@@ -275,7 +287,7 @@ fn one_spec(ctx: &mut Ctx, s: &Spec, rng: &mut ChaCha8Rng, nwords: usize) -> Opt
         // the refusal verdict goes to the model for every refused expression and for a sample
         // of the compiled ones
         if !panicked && (refused || wrng_pick(rng)) {
-            ctx.case(
+            case_if(ctx, emit, 
                 if refused { "detcheck-refused" } else { "detcheck-compiled" },
                 true,
                 &format!("detcheck {tree_s}"),
@@ -374,7 +386,7 @@ fn one_spec(ctx: &mut Ctx, s: &Spec, rng: &mut ChaCha8Rng, nwords: usize) -> Opt
             ctx.count("equiv:skipped-budget");
         }
         other => {
-            ctx.case(
+            case_if(ctx, emit, 
                 "equiv",
                 nontrivial,
                 &format!("equiv {} | {}", tree_s, dfa_text(&automaton)),
@@ -460,14 +472,14 @@ fn one_spec(ctx: &mut Ctx, s: &Spec, rng: &mut ChaCha8Rng, nwords: usize) -> Opt
                        "automaton_markers": markers}),
             );
         }
-        ctx.case(
+        case_if(ctx, emit, 
             if ans == "1" { "match-accepted" } else { "match-rejected" },
             !w.is_empty(),
             &format!("match {} | {}", tree_s, word_text(&w, &markers)),
             ans,
         );
     }
-    if nontrivial && rng.gen_range(0..4) == 0 {
+    if emit && nontrivial && rng.gen_range(0..4) == 0 {
         serialization_cases(ctx, &automaton, &tree_s, rng, 2);
     }
     Some(Compiled {
@@ -533,6 +545,13 @@ fn fixed_specs() -> Vec<Spec> {
             bx(Minus(bx(Or(bx(w("ab")), bx(w("cd")))), bx(w("ab")))),
             (0..=255u8).map(|x| (x, 1)).collect(),
         ),
+        ByteFrom(b"aab".to_vec()),
+        Cat(vec![ByteFrom(b"hello".to_vec()), w("x")]),
+        // known finding: marker conflict in a dead part (empty factor in a concatenation)
+        Cat(vec![
+            Or(bx(ByteFrom(vec![b'a'])), bx(MarkBytes(bx(ByteFrom(vec![b'a'])), vec![b'a'], 1))),
+            ByteFrom(vec![]),
+        ]),
         Utf8,
         JsonString,
         RepeatAtMost(bx(Digit), 3),
@@ -772,7 +791,7 @@ fn run_library(ctx: &mut Ctx) {
         }
         // sampled words of the shipped automaton against the specification
         let rx = reference::from_tree(&tree);
-        let n = if ctx.quick() { 10 } else { 60 };
+        let n = if ctx.quick() { 6 } else { 20 };
         for _ in 0..n {
             if let Some(w) = sample_accepted(&shipped, &mut rng, 600) {
                 let ms = accepts(&shipped, &w).unwrap();
